@@ -257,8 +257,9 @@ def run(chk, replay=None):
     res = chk.tlc('GenCartRegion', 'Genq_CartRegion.cfg', workers=1, coverage=False, count_states=False, timeout=1500)
     rcases = [c for c in res.tagged.get('CASE', []) if not c['flags']]
     rtraces, rmeta = [], []
+    vary18 = random.Random(chk.seed * 7919 + 18)
     for ci, case in enumerate(rcases):
-        if quick and ci % 3:
+        if quick and vary18.random() >= 1.0 / 3:
             continue
         x0, y0, dh = c01.TABLE[(ci * 5) % len(c01.TABLE)]
         nx, ny = case['nx'], case['ny']
